@@ -168,7 +168,7 @@ def _dead_top_imports(text):
 class C04(Prop):
     id = "C04"
     driver = "Blocks"
-    lean_modules = ["Pfb.C04.Props"]
+    lean_modules = ["Pfb.C04.Props", "Pfb.C04.NoUnusedLeft"]
     theorems = [
         "Pfb.C04.C04_never_guesses",
         "Pfb.C04.C04_unique_added",
@@ -178,6 +178,12 @@ class C04(Prop):
         "Pfb.C04.addMissingLoop_spec",
         "Pfb.C04.addMandatoryLoop_spec",
         "Pfb.C04.removeAll_subset",
+        # analysis side of "no never-read import remains" / second-pass fixed point of the remove stage (PyCore model of
+        # find_unused_imports, tied to scan_for_import_issues by C05's correspondence op `unused`)
+        "Pfb.C04.C04_no_unused_left_fragB",
+        "Pfb.C04.witness_builtins_checker",
+        "Pfb.C04.witness_same_line",
+        "Pfb.C04.witness_registry_none",
     ]
     anchors = [
         ("lib/python/pyflyby/_imports2s.py", "fix_unused_and_missing_imports"),
